@@ -15,7 +15,7 @@ CONSTANTS
   LifoQueue = FALSE
 SPECIFICATION Spec
 VIEW View
-INVARIANTS C07_CallOnlyAfterAllReady C07_Fifo C07_NoneLost C07_AllAccounted C06w_TrueMeansIdle C01_DrainReleases C01_NoCallInShutdown LogInit
+INVARIANTS C07_Fifo C07_AllAccounted C01_DrainReleases LogInit
 PROPERTIES Steps
 ACTION_CONSTRAINT LogEdge
 CHECK_DEADLOCK FALSE
